@@ -15,6 +15,7 @@ VERIF = os.path.dirname(os.path.dirname(os.path.abspath(__file__)))
 REPO = os.environ.get("VERIF_REPO", "/repo")
 # mutant evaluation (bin/mutant) points both at scratch locations; registered commands never set them
 EVID = os.environ.get("VERIF_EVIDENCE_DIR", os.path.join(VERIF, "evidence"))
+REPLAY_SIG = None
 SPEC = os.path.join(VERIF, "spec")
 HARNESS = os.path.join(VERIF, "harness")
 NCPU = os.cpu_count() or 4
@@ -397,6 +398,8 @@ class Result:
 
     def classify(self, sig, detail, known):
         """sig: signature dict (must include 'what'); detail: full case+event for the replay file."""
+        if REPLAY_SIG is not None and sig != REPLAY_SIG:
+            return "other"   # --replay: only the stored signature is looked for
         e = match_known(self.prop, sig, known)
         if e:
             self.known_hits.setdefault(e["id"], [e, 0])[1] += 1
@@ -462,6 +465,18 @@ def main(prop_runner):
     ap.add_argument("--seed", type=int, default=int(os.environ.get("VERIF_SEED", "1") or 1))
     ap.add_argument("--replay")
     a = ap.parse_args()
+    global REPLAY_SIG
+    if a.replay:
+        # a replay file stores the signature, the concrete case / events and the tier + seed that produced it: the check
+        # is re-run with that tier and seed and reports (exit 1) exactly when the same signature occurs again
+        rp = json.load(open(a.replay))
+        if rp.get("property") != a.prop:
+            sys.exit("replay file is for property %s" % rp.get("property"))
+        REPLAY_SIG = rp["signature"]
+        a.tier, a.seed = rp.get("tier", a.tier), int(rp.get("seed", a.seed))
+        os.environ.setdefault("VERIF_EVIDENCE_DIR", os.path.join(VERIF, ".work", "replay-evidence"))
+        global EVID
+        EVID = os.environ["VERIF_EVIDENCE_DIR"]
     work = Work(a.prop)
     try:
         rc = prop_runner(a.prop, a.tier, a.seed, work, a.replay)
